@@ -238,6 +238,76 @@ func (c *Ctx) c07HandOff() {
 			hand = append(hand, call)
 		}
 	}
+	// the serialisation may be a step of its own: a helper that serialises the message into buf[0:size] and
+	// returns exactly that slice (with the error); the buffer is then the helper's result here and size its
+	// argument
+	var serBuf, serLen, serMsg ssa.Value
+	if ser != nil {
+		serBuf, serMsg = ser.Call.Args[1], ser.Call.Args[0]
+		switch x := serBuf.(type) {
+		case *ssa.Slice:
+			serLen = x.High
+		case *ssa.MakeSlice:
+			serLen = x.Len
+		}
+	} else {
+		for _, ci := range flow.CallInstrs(wf) {
+			call, ok := ci.(*ssa.Call)
+			if !ok {
+				continue
+			}
+			g := flow.StaticCallee(call)
+			if g == nil || g.Blocks == nil || !c.P.IsLibrary(g) || g.Signature.Results().Len() != 2 {
+				continue
+			}
+			var inner *ssa.Call
+			for _, cj := range flow.CallInstrs(g) {
+				if ic, ok := cj.(*ssa.Call); ok && flow.IsCallTo(ic, pkgDiam, "Message", "SerializeTo") {
+					inner = ic
+				}
+			}
+			if inner == nil {
+				continue
+			}
+			sl, isSl := inner.Call.Args[1].(*ssa.Slice)
+			if !isSl || sl.High == nil {
+				continue
+			}
+			// every non-nil buffer the helper returns is the slice it serialised into
+			okRet := true
+			for _, rv := range flow.ReturnValues(g, 0) {
+				if flow.IsNilConst(rv) {
+					continue
+				}
+				if rv != ssa.Value(sl) {
+					okRet = false
+				}
+			}
+			mp, isMP := flow.Peel(inner.Call.Args[0]).(*ssa.Parameter)
+			if !okRet || !isMP || mp.Parent() != g {
+				continue
+			}
+			var lenArg ssa.Value
+			if hp, isP := flow.Peel(sl.High).(*ssa.Parameter); isP && hp.Parent() == g {
+				if i := paramIndex(g, hp); i < len(call.Call.Args) {
+					lenArg = call.Call.Args[i]
+				}
+			} else {
+				lenArg = sl.High // m.Len() computed in the helper itself
+			}
+			for _, ref := range flow.Referrers(call) {
+				if ex, ok := ref.(*ssa.Extract); ok && ex.Index == 0 {
+					serBuf = ex
+				}
+			}
+			if serBuf != nil {
+				ser, serLen = call, lenArg
+				if i := paramIndex(g, mp); i < len(call.Call.Args) {
+					serMsg = call.Call.Args[i]
+				}
+			}
+		}
+	}
 	key := fname(wf) + ":serialise-once-hand-off-once"
 	switch {
 	case ser == nil:
@@ -247,22 +317,17 @@ func (c *Ctx) c07HandOff() {
 		r.Fail("R3", key, c.fpos(wf), "the serialised message is not handed to a retry-capable writer")
 		return
 	}
-	b := ser.Call.Args[1]
+	b := serBuf
 	okAll := true
 	why := ""
 	// b = buf[0:m.Len()]
-	if sl, ok := b.(*ssa.Slice); ok {
-		lc, isCall := flow.Peel(sl.High).(*ssa.Call)
-		if !isCall || !flow.IsCallTo(lc, pkgDiam, "Message", "Len") || lc.Call.Args[0] != ser.Call.Args[0] {
+	if serLen == nil {
+		okAll, why = false, "cannot relate the write buffer to m.Len()"
+	} else {
+		lc, isCall := flow.Peel(serLen).(*ssa.Call)
+		if !isCall || !flow.IsCallTo(lc, pkgDiam, "Message", "Len") || serMsg != nil && flow.Peel(lc.Call.Args[0]) != flow.Peel(serMsg) {
 			okAll, why = false, "the write buffer's length is not m.Len() of the message being serialised"
 		}
-	} else if mk, ok := b.(*ssa.MakeSlice); ok {
-		lc, isCall := flow.Peel(mk.Len).(*ssa.Call)
-		if !isCall || !flow.IsCallTo(lc, pkgDiam, "Message", "Len") {
-			okAll, why = false, "the write buffer's length is not m.Len()"
-		}
-	} else {
-		okAll, why = false, "cannot relate the write buffer to m.Len()"
 	}
 	for i, h := range hand {
 		if !flow.Dominates(ser, h) {
@@ -303,13 +368,47 @@ func (c *Ctx) c07HandOff() {
 	// loops
 	seen := map[*ssa.Function]bool{}
 	for _, h := range hand {
-		g := c.writeLoopFn(flow.StaticCallee(h), 0)
-		if g == nil || seen[g] {
+		for _, g := range c.writeLoopFns(flow.StaticCallee(h), 0) {
+			if seen[g] {
+				continue
+			}
+			seen[g] = true
+			c.c07Loop(g)
+		}
+	}
+}
+
+// writeLoopFns: every function holding a transport write loop that g hands its byte parameter to (g itself
+// included).
+func (c *Ctx) writeLoopFns(g *ssa.Function, depth int) []*ssa.Function {
+	if g == nil || g.Blocks == nil || depth > 2 {
+		return nil
+	}
+	loops := flow.Loops(g)
+	found := false
+	flow.Instrs(g, func(in ssa.Instruction) {
+		if isTransportWriteInvoke(in) && flow.InnermostLoop(loops, in) != nil {
+			found = true
+		}
+	})
+	if found {
+		return []*ssa.Function{g}
+	}
+	var out []*ssa.Function
+	bp := byteParam(g)
+	for _, ci := range flow.CallInstrs(g) {
+		h := flow.StaticCallee(ci)
+		if h == nil || !c.P.IsLibrary(h) {
 			continue
 		}
-		seen[g] = true
-		c.c07Loop(g)
+		for _, a := range ci.Common().Args {
+			if bp != nil && a == ssa.Value(bp) {
+				out = append(out, c.writeLoopFns(h, depth+1)...)
+				break
+			}
+		}
 	}
+	return out
 }
 
 // isTransportWriteInvoke: w.Write(b) / w.WriteStream(b, s) on an interface, or a call of a
